@@ -209,6 +209,7 @@ def svg_document(layers, view_box=(0, 0, 100, 100)):
     """layers: [LayerSpec] in z-order; consecutive layers with the same non-None group id = (id, opacity) are
     wrapped in <g opacity>.  Returns SVG text."""
     defs, body = [], []
+    shared = {}
     open_group = None
     for i, L in enumerate(layers):
         if L.group != open_group:
@@ -219,7 +220,14 @@ def svg_document(layers, view_box=(0, 0, 100, 100)):
             open_group = L.group
         attr, d = fill_markup(L.fill, f"g{i}", bbox_of(L.cls, L.place))
         if d:
-            defs.append(d)
+            # layers whose gradient definitions are literally equal (same FillSpec in bounding-box units) reference ONE
+            # element, as authoring tools write them
+            body_d = d.replace(f'id="g{i}"', 'id="@"')
+            if body_d in shared:
+                attr = f"url(#{shared[body_d]})"
+            else:
+                shared[body_d] = f"g{i}"
+                defs.append(d)
         op = f' opacity="{L.opacity:g}"' if L.opacity != 1 else ""
         body.append(f'<path d="{path_d(L.cls, L.place, jitter=L.jitter)}" fill="{attr}"{op}/>')
     if open_group is not None:
@@ -323,7 +331,9 @@ def lattice_scenario(r, n_glyphs=None, same_gradient=None):
     st = [(0.0, r.choice(PALETTE[:4]), 1), (1.0, r.choice(PALETTE[4:]), 1)]
     same = None
     if same_gradient or (same_gradient is None and r.random() < 0.35):
-        same = FillSpec("linear", stops=st, units="userSpaceOnUse", spread=r.choice(["pad", "reflect"]), gt=None, geom=(0.0, 0.0, 1.0, 1.0))
+        # (in bounding-box units the definitions are literally equal and become one shared element)
+        same = FillSpec("linear", stops=st, units=r.choice(["userSpaceOnUse", "objectBoundingBox"]), spread=r.choice(["pad", "reflect"]),
+                        gt=None, geom=(0.0, 0.0, 1.0, 1.0))
     for g in range(n_glyphs):
         specs = []
         for i in range(r.randrange(2, 4)):
@@ -336,6 +346,12 @@ def lattice_scenario(r, n_glyphs=None, same_gradient=None):
             tx, ty = r.randrange(15, 80), r.randrange(15, 80)
             fill = same if same is not None else random_fill(r, allow_gradients=(r.random() < 0.4), allow_special=False)
             specs.append(LayerSpec(cls, (cell * sx, 0, 0, cell * sy, tx, ty), fill, r.choice([1, 1, 0.5]) if same is None else 1.0))
+            if r.random() < 0.25:
+                # the very same shape drawn twice in a row, translucent (a highlight painted twice): two layers, not one
+                L = specs[-1]
+                dup_fill = L.fill if L.fill.kind == "solid" else FillSpec("solid", color=r.choice(PALETTE), index=None)
+                specs[-1] = LayerSpec(L.cls, L.place, dup_fill, 0.5)
+                specs.append(LayerSpec(L.cls, L.place, dup_fill, 0.5))
         glyphs.append((CODEPOINTS[g], (0, 0, 100, 100), specs))
     return glyphs
 
